@@ -159,7 +159,9 @@ class SdfTransformer(Transformer):
     @staticmethod
     def start(args):
         name = next((a for a in args if isinstance(a, str)), None)
-        cells = dict(t for t in args if isinstance(t, tuple))
+        cells = dict()
+        for cell_name, entries in (t for t in args if isinstance(t, tuple)):
+            cells.setdefault(cell_name, []).extend(entries)  # a file may have several CELL blocks per instance
         return DelayFile(name, cells)
 
 
